@@ -402,13 +402,19 @@ func (p *Packer) resolveExternalLinkChain(root string, path string, hops int) (*
 		return nil, fmt.Errorf("failed to read symlink %q: %w", path, err)
 	}
 
-	// Get the absolute path of the symlink target.
-	absTarget := target
-	if !filepath.IsAbs(absTarget) {
-		absTarget = filepath.Join(filepath.Dir(path), target)
+	// Get the absolute path of the symlink target, following it the way the
+	// operating system does: where the target passes through a symlinked
+	// directory, a ".." behind it continues from the directory that link
+	// leads to, not from the one that holds it. The content is later read
+	// through the link itself, so a textual reading could describe one file
+	// and copy another.
+	dir := filepath.Dir(path)
+	if !filepath.IsAbs(dir) {
+		dir = filepath.Join(root, dir)
 	}
-	if !filepath.IsAbs(absTarget) {
-		absTarget = filepath.Join(root, absTarget)
+	absTarget, ok := followSymlinks(dir, target)
+	if !ok {
+		return nil, fmt.Errorf("too many levels of symbolic links resolving %q", path)
 	}
 
 	// Get the file info for the target.
